@@ -5,11 +5,18 @@
    ExtrOCamlInt63 (Uint63 -> Uint63 of coq-core.kernel). Z, positive, nat stay
    the extracted inductive datatypes. *)
 Require Import ExtrOcamlBasic ExtrOcamlString ExtrOCamlFloats ExtrOCamlInt63.
-From SV Require Import Cxx Ops RngGen SortKey SortGen SortModel.
+From SV Require Import Cxx Ops RngGen SortKey SortGen SortModel ArgsGen ArgsModel.
 
 Definition rng_real_f (s : Z) := random_real OpsFloat s.
 Definition rng_complex_f (s : Z) := random_complex OpsFloat s.
 
 Extraction Language OCaml.
 Extraction "model.ml" next_long_rand seed_norm rng_real_f rng_complex_f
-  valid_argsort valid_gen_sort argsort_dispatch gen_select_dispatch gen_sort_dispatch herm_sort_check.
+  valid_argsort valid_gen_sort argsort_dispatch gen_select_dispatch gen_sort_dispatch herm_sort_check
+  herm_ctor_lvalue herm_ctor_rvalue gen_ctor jd_ctor jd_ctor_default svd_ctor
+  shift_mode_check_shiftinvert shift_mode_check_buckling shift_mode_check_cayley arnoldi_init_check
+  wrapper_ctor_DenseGenMatProd wrapper_ctor_DenseSymMatProd wrapper_ctor_DenseHermMatProd
+  wrapper_ctor_SparseGenMatProd wrapper_ctor_SparseSymMatProd wrapper_ctor_SparseHermMatProd
+  wrapper_ctor_DenseSymShiftSolve wrapper_ctor_SparseSymShiftSolve wrapper_ctor_DenseGenRealShiftSolve
+  wrapper_ctor_SparseGenRealShiftSolve wrapper_ctor_DenseGenComplexShiftSolve wrapper_ctor_SparseGenComplexShiftSolve
+  wrapper_ctor_DenseCholesky wrapper_ctor_SparseCholesky wrapper_ctor_SparseRegularInverse wrapper_ctor_SymShiftInvert.
